@@ -4,18 +4,26 @@ import json, os, subprocess, glob, re
 os.chdir('/verif')
 env = dict(os.environ, VERIF_EVIDENCE_DIR='/scratch/seed_evidence')
 os.makedirs('/scratch/seed_evidence', exist_ok=True)
-rows = []
-for d in sorted(glob.glob('seeded/C*-*/')):
+from concurrent.futures import ThreadPoolExecutor
+WORKERS = int(os.environ.get('SEED_TABLE_WORKERS', '3'))
+
+
+def one(d):
     sid = os.path.basename(d.rstrip('/'))
     prop = sid.split('-')[0]
     meta = json.load(open(d + 'meta.json'))
     patch = os.path.abspath(d + 'patch.diff')
     # a scratch export of /repo's HEAD with the change applied (VERIF_REPO): /repo itself is never touched
-    S = '/scratch/seed_table_repo'
+    S = f'/scratch/seed_table_repo_{sid}'
     subprocess.run(f'rm -rf {S}; mkdir -p {S}; git -C /repo archive HEAD | tar -x -C {S}', shell=True, check=True)
-    if subprocess.run(f'cd {S} && patch -p1 -s < {patch}', shell=True, capture_output=True).returncode != 0:
-        rows.append((sid, 'patch does not apply', '', meta)); continue
-    r = subprocess.run(['./check', prop], capture_output=True, text=True, env=dict(env, VERIF_REPO=S), timeout=1800)
+    try:
+        if subprocess.run(f'cd {S} && patch -p1 -s < {patch}', shell=True, capture_output=True).returncode != 0:
+            return (sid, 'patch does not apply', '', meta)
+        ev = f'/scratch/seed_evidence/{sid}'
+        os.makedirs(ev, exist_ok=True)
+        r = subprocess.run(['./check', prop], capture_output=True, text=True, env=dict(env, VERIF_REPO=S, VERIF_EVIDENCE_DIR=ev, VERIF_REPLAY_DIR=ev + '/replays'), timeout=2400)
+    finally:
+        subprocess.run(f'rm -rf {S}', shell=True)
     v = [l for l in r.stdout.splitlines() if l.startswith('VIOLATION')]
     nrep = sum(1 for l in v if 'no-failing-input-found' not in l)
     first = ''
@@ -24,11 +32,30 @@ for d in sorted(glob.glob('seeded/C*-*/')):
         first = m.group(1)[:110] if m else ''
     und = [l for l in r.stdout.splitlines() if l.startswith(('UNDECIDED', 'CHECKER'))]
     verdict = {0: 'MISSED (exit 0)', 1: f'VIOLATION ({len(v)} line(s), {nrep} with replayed input)', 2: 'UNDECIDED (exit 2, alarm without VIOLATION line)', 3: 'CHECKER-FAULT (exit 3)'}.get(r.returncode, str(r.returncode))
-    rows.append((sid, verdict, first or (und[0][:110] if und else ''), meta))
+    print(sid, verdict, flush=True)
+    return (sid, verdict, first or (und[0][:110] if und else ''), meta)
+
+
+# SEED_TABLE_ONLY=<regex>: re-run only the seeds whose id matches; the other rows are kept from the existing RESULTS.md
+ONLY = os.environ.get('SEED_TABLE_ONLY')
+kept = {}
+if ONLY and os.path.exists('seeded/RESULTS.md'):
+    for line in open('seeded/RESULTS.md'):
+        m = re.match(r'\| (C\d\d-[^ ]+) \|', line)
+        if m:
+            kept[m.group(1)] = line
+dirs = sorted(glob.glob('seeded/C*-*/'))
+todo = [d for d in dirs if not ONLY or re.search(ONLY, os.path.basename(d.rstrip('/'))) or os.path.basename(d.rstrip('/')) not in kept]
+with ThreadPoolExecutor(WORKERS) as pool:
+    done = {r[0]: r for r in pool.map(one, todo)}
+rows = [done.get(os.path.basename(d.rstrip('/'))) or (os.path.basename(d.rstrip('/')), 'KEPT', kept[os.path.basename(d.rstrip('/'))], None) for d in dirs]
 with open('seeded/RESULTS.md', 'w') as f:
     f.write('| seed | what the change does (independent sub-agent) | result of `./check <property>` | first failing obligation |\n|---|---|---|---|\n')
     for sid, verdict, first, meta in rows:
+        if verdict == 'KEPT':
+            f.write(first)
+            continue
         what = ' '.join(meta['breaks'].split())[:230].replace('|', '\\|')
         f.write(f'| {sid} | {what} | {verdict} | `{first.replace("|", "/")}` |\n')
-subprocess.run('rm -rf /scratch/seed_table_repo', shell=True)
-print(len(rows), 'seeds;', sum(1 for r in rows if r[1].startswith('VIOLATION')), 'violations;', [r[0] for r in rows if not r[1].startswith('VIOLATION')])
+subprocess.run('rm -rf /scratch/seed_evidence', shell=True)
+print(len(rows), 'seeds;', len(todo), 're-run;', sum(1 for r in rows if r[1].startswith('VIOLATION')), 'violations among them;', [r[0] for r in rows if not r[1].startswith(('VIOLATION', 'KEPT'))])
